@@ -178,7 +178,7 @@ func genC01TruthTable(g *G, id int) C01Case {
 
 var atomKinds = []string{"minCount", "maxCount", "exactCount", "minLength", "maxLength", "exactLength", "in",
 	"containsAll", "containsSome", "minInclusive", "minExclusive", "maxInclusive", "maxExclusive",
-	"lessThanProperty", "lessThanOrEqualsToProperty", "equalsToProperty", "disjointWithProperty", "datatype", "pattern", "uniqueValues"}
+	"lessThanProperty", "lessThanOrEqualsToProperty", "equalsToProperty", "disjointWithProperty", "datatype", "pattern", "uniqueValues", "moreThanProperty", "moreThanOrEqualsToProperty"}
 
 func (g *G) randAtom(countOnly bool) Atom {
 	p := g.path(g.n(3))
@@ -214,7 +214,7 @@ func (g *G) randAtom(countOnly bool) Atom {
 		}
 	case "minInclusive", "minExclusive", "maxInclusive", "maxExclusive":
 		a.Arg = i64p(int64(g.n(7) - 2))
-	case "lessThanProperty", "lessThanOrEqualsToProperty", "equalsToProperty", "disjointWithProperty":
+	case "lessThanProperty", "lessThanOrEqualsToProperty", "equalsToProperty", "disjointWithProperty", "moreThanProperty", "moreThanOrEqualsToProperty":
 		// node objects (reached by a final inverse step) compare structurally in OPA; not modelled
 		q := noInverse(g.path(g.n(2)))
 		a.Other = &q
